@@ -209,8 +209,9 @@ func TestVerifC56Replay(t *testing.T) {
 					case "tick":
 						time.Sleep(c56Unit)
 					case "rn":
-						r.ResolveNow(resolver.ResolveNowOptions{})
 						tr.Emit(map[string]any{"ev": "rn", "t": e.ms()})
+						r.ResolveNow(resolver.ResolveNowOptions{})
+						tr.Emit(map[string]any{"ev": "rn_ret", "t": e.ms()})
 					case "close":
 						e.closeRes(r)
 						closed = true
@@ -298,8 +299,9 @@ func TestVerifC56Random(t *testing.T) {
 					case k < 9:
 						time.Sleep(gaps[rng.Intn(len(gaps))])
 					case k < 19:
-						r.ResolveNow(resolver.ResolveNowOptions{})
 						tr.Emit(map[string]any{"ev": "rn", "t": e.ms()})
+						r.ResolveNow(resolver.ResolveNowOptions{})
+						tr.Emit(map[string]any{"ev": "rn_ret", "t": e.ms()})
 					default:
 						e.closeRes(r)
 						closed = true
